@@ -97,24 +97,28 @@ _LIST_VALUES = {
 def iter_atomic_values(xsd_type: XsdTypeProtocol) -> Iterator[aliases.AtomicType]:
     """Generates a list of XSD atomic values related to provided XSD type."""
 
-    def _iter_values(root_type: XsdTypeProtocol, depth: int) -> Iterator[aliases.AtomicType]:
+    def _iter_values(base_type: XsdTypeProtocol, depth: int) -> Iterator[aliases.AtomicType]:
+        # Walk up to the nearest builtin ancestor (not straight to the primitive type), so
+        # that e.g. a value of a restriction of xs:int is an xs:int and not only an xs:decimal.
         if depth > 15:
             return
-        if root_type.name in atomic_values:
-            yield atomic_values[root_type.name]
-        elif hasattr(root_type, 'member_types'):
-            for member_type in root_type.member_types:
+        if base_type.name in atomic_values:
+            yield atomic_values[base_type.name]
+        elif hasattr(base_type, 'member_types'):
+            for member_type in base_type.member_types:
                 yield from _iter_values(member_type, depth + 1)
+        elif base_type.is_list() and getattr(base_type, 'item_type', None) is not None:
+            yield from _iter_values(base_type.item_type, depth + 1)
+        elif getattr(base_type, 'base_type', None) is not None:
+            yield from _iter_values(base_type.base_type, depth + 1)
+        elif base_type.root_type is not base_type:
+            yield from _iter_values(base_type.root_type, depth + 1)
 
     atomic_values = _ATOMIC_VALUES[xsd_type.xsd_version]
-    if xsd_type.name in atomic_values:
-        yield atomic_values[xsd_type.name]
-    elif xsd_type.is_simple() or (simple_type := xsd_type.simple_type) is None:
-        yield from _iter_values(xsd_type.root_type, 1)
-    elif simple_type.name in atomic_values:
-        yield atomic_values[simple_type.name]
+    if xsd_type.is_simple() or (simple_type := xsd_type.simple_type) is None:
+        yield from _iter_values(xsd_type, 1)
     else:
-        yield from _iter_values(simple_type.root_type, 1)
+        yield from _iter_values(simple_type, 1)
 
 
 def get_atomic_sequence(xsd_type: Optional[XsdTypeProtocol],
